@@ -27,7 +27,7 @@ import warnings
 import xml.sax.saxutils as saxutils
 from typing import Any, Dict, Iterator, List, Optional, Sequence, Tuple
 
-from harness import retree_wire
+from harness import extract, retree_wire
 from harness.core import Ctx, corpus, crash_name, dec_text, enc_text
 from harness.extract import ExtractError, HEADER, _class, _func, _parse, lean_text
 
@@ -132,15 +132,22 @@ def gen_Xsd(repo: pathlib.Path) -> str:
         raise ExtractError("the three character classes of _ESCAPE_BACKSLASH_X_U_U_RE differ")
     cls_xuu = _class_ranges(m.group(1))
 
-    for fname in ("_undo_escaping_backslash_x_in_pattern", "_undo_escaping_backslash_x_u_and_U_in_pattern"):
-        fn = _func(mod, fname)
+    # each un-escaping function — itself or through the module-level helpers it calls — iterates over the matches of ITS
+    # expression and skips the escaped backslash with a `continue`
+    for fname, rname in (
+        ("_undo_escaping_backslash_x_in_pattern", "_ESCAPE_BACKSLASH_X_RE"),
+        ("_undo_escaping_backslash_x_u_and_U_in_pattern", "_ESCAPE_BACKSLASH_X_U_U_RE"),
+    ):
+        scopes = extract._reachable_functions(mod, _func(mod, fname))
         skips = [
-            n for n in ast.walk(fn)
+            n for scope in scopes for n in ast.walk(extract.expand_locals(scope))
             if isinstance(n, ast.If) and isinstance(n.test, ast.Compare) and isinstance(n.test.comparators[0], ast.Constant)
             and n.test.comparators[0].value == "\\\\" and any(isinstance(b, ast.Continue) for b in n.body)
         ]
         if len(skips) != 1:
             raise ExtractError(f"{fname} does not skip the escaped backslash with a `continue`")
+        if not any(isinstance(n, ast.Name) and n.id == rname for scope in scopes for n in ast.walk(scope)):
+            raise ExtractError(f"{fname} does not use {rname}")
 
     steps = [c for c in _calls_in_order(_func(mod, "_translate_pattern")) if not c.startswith("?.") and c not in ("isinstance", "ord")]
 
@@ -158,11 +165,14 @@ def gen_Xsd(repo: pathlib.Path) -> str:
         raise ExtractError("_PRIMITIVE_MAP not found")
 
     # the XML-character pattern that _translate_to_simple_type skips
+    # (written in the comparison or as a module-level constant; in the function or in a module-level helper it calls)
     xml_pats = [
-        n.comparators[0].value
-        for n in ast.walk(_func(mod, "_translate_to_simple_type"))
+        c.value
+        for scope in extract._reachable_functions(mod, _func(mod, "_translate_to_simple_type"))
+        for n in ast.walk(scope)
         if isinstance(n, ast.Compare) and len(n.ops) == 1 and isinstance(n.ops[0], ast.NotEq)
-        and isinstance(n.comparators[0], ast.Constant) and isinstance(n.comparators[0].value, str)
+        for c in [extract._resolve_module_constant(mod, n.comparators[0])]
+        if isinstance(c, ast.Constant) and isinstance(c.value, str)
     ]
     if len(xml_pats) != 1:
         raise ExtractError(f"expected one `pattern != <constant>` in _translate_to_simple_type, found {len(xml_pats)}")
